@@ -3,6 +3,7 @@ import Rare.Proofs.C18Layout
 import Rare.Proofs.C18Dur
 import Rare.Proofs.C18RT
 import Rare.Proofs.C18Abbr
+import Rare.Proofs.C18Zone
 import Rare.Gen.C18
 /-!
 # C18 – Time helpers agree with the calendar and round-trip
@@ -432,6 +433,122 @@ theorem abbr_numeric_counterexample :
         | .ok _ => false
         | .error _ => true) = true
     ∧ abbrShape (asc "+0545") = false := by
+  decide +kernel
+
+/-! ## Round 4: zones as transition tables (any table; the harness feeds real IANA transitions) -/
+
+/-- `Location.lookup` on ANY table returns a segment that contains the instant; on a table with
+ascending transitions every instant of that segment gets the same segment (so offset and
+abbreviation are constant between two transitions). -/
+theorem zone_lookup_spec (z : ZoneTab) (u : Int) :
+    inSeg (z.lookup u) u = true
+    ∧ (sortedTrans z.trans = true → ∀ v, inSeg (z.lookup u) v = true → z.lookup v = z.lookup u) :=
+  ⟨lookup_inSeg z u, fun hs v hv => lookup_same z hs u v hv⟩
+
+/-- `timeattr` relative to any zone table reports the calendar fields of the local wall clock
+`u + offset in force at u`: quarter of the civil month, weekday, ISO week and ISO year-week of the
+local day. -/
+theorem timeattr_in_zone (z : ZoneTab) (u : Int) :
+    timeAttrIn z (asc "quarter") u = some (itoa (quarter (civilFromDays (z.wall u / 86400)).m))
+    ∧ timeAttrIn z (asc "weekday") u = some (itoa (weekday (z.wall u / 86400)))
+    ∧ timeAttrIn z (asc "week") u = some (itoa (isoYearWeek (z.wall u / 86400)).2)
+    ∧ timeAttrIn z (asc "yearweek") u =
+        some (itoa (isoYearWeek (z.wall u / 86400)).1 ++ [45] ++ itoa (isoYearWeek (z.wall u / 86400)).2) := by
+  refine ⟨?_, rfl, rfl, rfl⟩
+  have := timeattr_quarter u (z.lookup u).off
+  simp only [timeAttrIn, this, civilOf, localDays, ZoneTab.wall]
+
+/-- The zone resolution of `time.Date` inverts the wall clock: for every instant `u` whose wall
+clock, read as an instant, still lies in `u`'s own segment (i.e. `u` is at least |offset| away from
+the transitions around it), `dateIn` of the wall clock of `u` is `u`. -/
+theorem zone_date_roundtrip (z : ZoneTab) (hs : sortedTrans z.trans = true) (u : Int)
+    (hin : inSeg (z.lookup u) (z.wall u) = true) : dateIn z (z.wall u) = u :=
+  dateIn_roundtrip' z hs u hin
+
+/-- A layout WITHOUT any zone token that carries date and time to the second (ANSIC, `2006-01-02
+15:04:05`, …) round-trips relative to the zone table: `{time {timeformat u L Z} L Z}` is `u` for
+every instant away from the transitions of `Z` (hypothesis of `zone_date_roundtrip`).  The
+counterexamples below show the hypothesis is needed. -/
+theorem zoneless_format_roundtrip (layout : Bytes) (hRT : RT (tokenize layout) = true)
+    (hc : let c := carries (tokenize layout)
+      (c.contains 'Y' && c.contains 'M' && c.contains 'D' && c.contains 'h' && c.contains 'm' && c.contains 's'
+        && !c.contains 'y' && !c.contains 'z' && !c.contains 'a') = true)
+    (z : ZoneTab) (hs : sortedTrans z.trans = true) (u : Int) (hin : inSeg (z.lookup u) (z.wall u) = true)
+    (hoff : OffOK (z.lookup u).off)
+    (hy : 0 ≤ (civilOf u (z.lookup u).off).y ∧ (civilOf u (z.lookup u).off).y ≤ 9999) :
+    ∃ p, parseLayout layout (formatLayout layout (timeVIn z u)) = .ok p ∧ instantIn z p = some u := by
+  simp only [Bool.and_eq_true, Bool.not_eq_true'] at hc
+  obtain ⟨⟨⟨⟨⟨⟨⟨⟨cY, cM⟩, cD⟩, ch⟩, cm⟩, cs⟩, cy⟩, cz⟩, ca⟩ := hc
+  have hsec : 0 ≤ localSecs u (z.lookup u).off ∧ localSecs u (z.lookup u).off < 86400 := by unfold localSecs; omega
+  have hcv := civil_month_day (localDays u (z.lookup u).off)
+  have hvalid : (timeVIn z u).dt.valid := by
+    simp only [timeVIn, timeVOf, civilOf, DateTime.valid] at hy ⊢
+    refine ⟨hy.1, hy.2, hcv.1, hcv.2.1, hcv.2.2.1, hcv.2.2.2, ?_, ?_, ?_, ?_, ?_, ?_, by omega, by omega⟩ <;> omega
+  have hnoy : ¬ (.std .year ∈ tokenize layout) := by
+    intro hm
+    have : 'y' ∈ carries (tokenize layout) := by
+      simp only [carries, List.mem_filterMap]; exact ⟨_, hm, rfl⟩
+    rw [List.contains_iff_mem.mpr this] at cy; cases cy
+  have hnoa : ¬ (.std .tz ∈ tokenize layout) := by
+    intro hm
+    have : 'a' ∈ carries (tokenize layout) := by
+      simp only [carries, List.mem_filterMap]; exact ⟨_, hm, rfl⟩
+    rw [List.contains_iff_mem.mpr this] at ca; cases ca
+  obtain ⟨p, hp, hdt, _, _, hdef⟩ := format_parse_fields layout hRT (timeVIn z u) hvalid rfl (weekday_range' _) hoff
+    (fun hm => absurd hm hnoy) (fun hm => absurd hm hnoa)
+  refine ⟨p, hp, ?_⟩
+  have hpd : p.dt = civilOf u (z.lookup u).off := by
+    rw [hdt]
+    simp only [projectDT, cY, cM, cD, ch, cm, cs, Bool.true_or, if_true, timeVIn, timeVOf, civilOf]
+  have hw := wall_of_instant u (z.lookup u).off
+  have hwall : wallSeconds p.dt = z.wall u := by rw [hpd]; unfold ZoneTab.wall; omega
+  simp only [instantIn, hdef cz ca, hwall]
+  rw [zone_date_roundtrip z hs u hin]
+
+/-- Europe/Berlin in 2016 as a table (CET, CEST from 27 March 01:00 UTC, CET from 30 October 01:00 UTC). -/
+def berlin2016 : ZoneTab := ⟨(3600, asc "CET"), [(1459040400, 7200, asc "CEST"), (1477789200, 3600, asc "CET")]⟩
+
+/-- The hypothesis of `zone_date_roundtrip` marks exactly the trouble spots.  Overlap: 30 Oct 2016
+02:30 is shown twice (00:30 UTC in CEST and 01:30 UTC in CET); `time.Date` – hence `{time}` on a
+text without zone – answers the later one, so the earlier instant does not round-trip.  Gap: 27 Mar
+2016 02:30 is never shown; the resolution answers 01:30 UTC, whose wall clock is 03:30.  And the
+local days: 27 March has 23 hours, 30 October 25 (`buckettime … days` puts 82800 resp. 90000
+instants into one bucket). -/
+theorem zone_gap_overlap_counterexample :
+    sortedTrans berlin2016.trans = true
+    ∧ berlin2016.wall 1477787400 = berlin2016.wall 1477791000
+    ∧ dateIn berlin2016 (berlin2016.wall 1477787400) = 1477791000
+    ∧ inSeg (berlin2016.lookup 1477787400) (berlin2016.wall 1477787400) = false
+    ∧ dateIn berlin2016 1459045800 = 1459042200 ∧ berlin2016.wall 1459042200 = 1459045800 + 3600
+    ∧ (∀ u, berlin2016.wall u ≠ 1459045800)
+    ∧ berlin2016.wall 1459033200 = 16887 * 86400 ∧ berlin2016.wall (1459033200 + 82800) = 16888 * 86400
+    ∧ berlin2016.wall 1477778400 = 17104 * 86400 ∧ berlin2016.wall (1477778400 + 90000) = 17105 * 86400 := by
+  refine ⟨by decide, by decide +kernel, by decide +kernel, by decide +kernel, by decide +kernel, by decide +kernel, ?_,
+    by decide +kernel, by decide +kernel, by decide +kernel, by decide +kernel⟩
+  intro u
+  simp only [ZoneTab.wall, ZoneTab.lookup, berlin2016, lookupFrom]
+  split
+  · simp only; omega
+  · split
+    · simp only; omega
+    · simp only; omega
+
+/-- The length of a local day across one change of offset: if local midnight of day `d` falls at
+`u1` and local midnight of day `d + 1` at `u2`, the day lasts 24 h minus the change of the offset
+(23 h when the clocks go forward by one hour, 25 h when they go back) – whatever the table. -/
+theorem zone_day_length (z : ZoneTab) (u1 u2 d : Int) (h1 : z.wall u1 = 86400 * d) (h2 : z.wall u2 = 86400 * (d + 1)) :
+    u2 - u1 = 86400 - ((z.lookup u2).off - (z.lookup u1).off) := by
+  unfold ZoneTab.wall at h1 h2; omega
+
+/-- ISO week across a year boundary in a zone east of UTC: 31 Dec 2020 15:30 UTC is already Friday
+1 Jan 2021 in Asia/Tokyo (+09:00), which belongs to ISO week 2020-53, first quarter. -/
+theorem zone_isoweek_example :
+    let tokyo : ZoneTab := ⟨(32400, asc "JST"), []⟩
+    timeAttrIn tokyo (asc "yearweek") 1609428600 = some (asc "2020-53")
+    ∧ timeAttrIn tokyo (asc "quarter") 1609428600 = some (asc "1")
+    ∧ timeAttrIn tokyo (asc "weekday") 1609428600 = some (asc "5")
+    ∧ timeAttr (asc "yearweek") 1609428600 0 = some (asc "2020-53")
+    ∧ timeAttr (asc "quarter") 1609428600 0 = some (asc "4") := by
   decide +kernel
 
 /-! ## Durations -/
